@@ -55,6 +55,10 @@ var verifRRStreams [vR]int32 // stream counters after the last interference (bef
 func VerifH_rr() {
 	w := verifMkWorld()
 	gb := w.gb
+	// tickets are drawn by picks on any goroutine, which hold gb.mu at most in read mode: the counter
+	// is only ever updated atomically (a plain write under the shared lock lets two picks draw the
+	// same ticket)
+	verifGuardedBy(&gb.rrRefId, &gb.mu, "gcpBalancer.rrRefId (the round-robin ticket counter; non-atomic write)")
 	verifAssume(gb.picker == balancer.Picker(w.pk) || verifBool("stale"))
 	verifAssume(len(w.pk.scRefs) > 0) // an empty picker tells the call to wait before any strategy is looked at
 	ctx := &verifCtx{gcp: &gcpContext{reqMsg: w.mkMsg("req"), replyMsg: w.mkMsg("reply")}, hasGcp: verifBool("hasGcpCtx"), done: make(chan struct{})}
@@ -114,6 +118,7 @@ func VerifH_rr() {
 func VerifH_rrwin() {
 	w := verifMkWorld()
 	gb := w.gb
+	verifGuardedBy(&gb.rrRefId, &gb.mu, "gcpBalancer.rrRefId (the round-robin ticket counter; non-atomic write)")
 	n := len(gb.scRefList)
 	verifAssume(n >= 1)
 	for j := 0; j < vR; j++ {
